@@ -235,6 +235,7 @@ func (b *c14Backend) extra(i int) []byte {
 // ---------------------------------------------------------------- PKI
 
 type c14PKI struct {
+	bigExt   int // when > 0, intermediates carry a non-critical private extension of this many bytes
 	rootKey  *ecdsa.PrivateKey
 	rootCert *stdx509.Certificate
 	rootDER  []byte
@@ -285,6 +286,9 @@ func (p *c14PKI) chain(nInter int, precert bool, pad int) [][]byte {
 			panic(err)
 		}
 		t := p.tmpl(fmt.Sprintf("verif int %d/%d", i, p.serial), true)
+		if p.bigExt > 0 {
+			t.ExtraExtensions = []pkix.Extension{{Id: asn1.ObjectIdentifier{1, 3, 6, 1, 4, 1, 99999, 1}, Value: append([]byte{0x04, 0x84, byte(p.bigExt >> 24), byte(p.bigExt >> 16), byte(p.bigExt >> 8), byte(p.bigExt)}, make([]byte, p.bigExt)...)}}
+		}
 		der, err := stdx509.CreateCertificate(p.rd, t, parent, &k.PublicKey, pkey)
 		if err != nil {
 			panic(err)
@@ -646,6 +650,36 @@ func c14Caches() []c14CacheCfg {
 		}
 	}
 	return l
+}
+
+// TestVerifC14Oversized: the poisoned-range scenario on its own (17 MB of certificates: run without -race).
+func TestVerifC14Oversized(t *testing.T) {
+	out := verifkit.Open()
+	defer out.Close()
+	r := verifkit.NewRand(verifkit.Seed())
+	e := &c14Env{out: out, r: r, pki: newC14PKI(r)}
+	sk, err := ecdsa.GenerateKey(elliptic.P256(), c15Reader{r.Fork()})
+	if err != nil {
+		t.Fatal(err)
+	}
+	e.signer = sk
+	cfgs := []c14CacheCfg{c14Caches()[0]}
+	if verifkit.Thorough() {
+		cfgs = append(cfgs, c14Caches()[5], c14Caches()[8])
+	}
+	for _, cc := range cfgs {
+		e.dback = newC14Backend()
+		e.direct = e.mkLogInfo(e.dback, &directIssuanceChainService{})
+		ind := e.mkIndirect(cc.name, cc.mk())
+		for k := 0; k < 3; k++ { // a few ordinary entries around it
+			e.submit(ind, e.pki.chain(k, k == 1, 0), k == 1, 0)
+		}
+		e.poisonedRange(ind)
+		for i := 0; i < ind.back.size(); i++ {
+			e.serve(ind, i, false, 0, "")
+		}
+		e.serveRange(ind, 0, ind.back.size()-1, 0, "", "")
+	}
 }
 
 func TestVerifC14(t *testing.T) {
@@ -1085,6 +1119,69 @@ func (e *c14Env) serveRange(ind *c14Indirect, a, b int, faultAt int, state, labe
 		e.out.Count("class:range-fault-gives-error")
 	default:
 		e.out.Fail(key, fmt.Sprintf("status %d without any fault", status))
+	}
+}
+
+// poisonedRange plays, through the real add-chain: a chain whose certificates are each below the TLS limit of 2^24-1
+// bytes but whose `certificate_chain` body is above it (two intermediates of ~8.4 MB). The in-backend mode cannot encode
+// its extra data and refuses the submission. If the external-storage mode accepts it (it only DER-encodes the chain at
+// submission), the entry is sequenced, can never be served, and every get-entries range containing it fails: a poisoned
+// range. Oracle: what the in-backend mode refuses, the external-storage mode refuses too.
+func (e *c14Env) poisonedRange(ind *c14Indirect) {
+	e.pki.bigExt = 8400000
+	chain := e.pki.chain(2, false, 0)
+	e.pki.bigExt = 0
+	body := c14Body(chain)
+	ind.rec.mu.Lock()
+	ind.rec.trace = false // the 17 MB chain is not sent to the model
+	ind.rec.calls, ind.rec.faultAt, ind.rec.faulted = 0, 0, false
+	ind.rec.mu.Unlock()
+	defer func() {
+		ind.rec.mu.Lock()
+		ind.rec.trace = true
+		ind.rec.mu.Unlock()
+	}()
+	nd, ni := e.dback.size(), ind.back.size()
+	var sd, si int
+	if p := verifkit.Guard(func() { sd = vServe(e.direct, "add-chain", "POST", nil, body).Code }); p != "" {
+		e.out.Fail("panic:poisoned-range direct add-chain", p)
+		return
+	}
+	if p := verifkit.Guard(func() { si = vServe(ind.li, "add-chain", "POST", nil, body).Code }); p != "" {
+		e.out.Fail("panic:poisoned-range external-storage add-chain", p)
+		return
+	}
+	total := 0
+	for _, c := range chain[1:] {
+		total += 3 + len(c)
+	}
+	e.out.Count(fmt.Sprintf("class:oversized-chain-direct-%d-external-%d", sd, si))
+	if sd == 200 || e.dback.size() != nd {
+		e.out.Fail("poisoned-range harness", fmt.Sprintf("the in-backend mode accepted a chain body of %d bytes (status %d)", total, sd))
+		return
+	}
+	if si != 200 && ind.back.size() == ni {
+		return // refused by both: nothing was sequenced
+	}
+	// accepted: show what readers get, then take the leaf out again so that the two backends stay in step
+	i := ind.back.size() - 1
+	one := vServe(ind.li, "get-entries", "GET", url.Values{"start": {fmt.Sprint(i)}, "end": {fmt.Sprint(i)}}, "").Code
+	from := i - 2
+	if from < 0 {
+		from = 0
+	}
+	rng := vServe(ind.li, "get-entries", "GET", url.Values{"start": {fmt.Sprint(from)}, "end": {fmt.Sprint(i)}}, "").Code
+	eap := vServe(ind.li, "get-entry-and-proof", "GET", url.Values{"leaf_index": {fmt.Sprint(i)}, "tree_size": {fmt.Sprint(i + 1)}}, "").Code
+	e.out.Fail(fmt.Sprintf("poisoned-range add-chain oversized-chain-body=%d cache=%s", total, ind.name),
+		fmt.Sprintf("the in-backend mode refuses the submission (%d: extra data cannot be TLS-encoded, %d > 16777215) but the external-storage mode accepted it (%d) and sequenced entry %d; reading it: get-entries %d..%d -> %d, get-entries %d..%d -> %d, get-entry-and-proof -> %d", sd, total, si, i, i, i, one, from, i, rng, eap))
+	stored := ind.back.extra(i)
+	ind.back.mu.Lock()
+	ind.back.leaves = ind.back.leaves[:ni]
+	ind.back.mu.Unlock()
+	if h := c14HashOf(stored); h != nil {
+		ind.rec.mu.Lock()
+		delete(ind.store.m, string(h))
+		ind.rec.mu.Unlock()
 	}
 }
 
